@@ -4,7 +4,8 @@ import MakoModel.Namespace.LogInv
 
 Theorems about the model `MakoModel/Namespace/Model.lean` (all template sets, URIs, association lists, heaps).
 Where the code has a defect w.r.t. the property the model has it too: the full statement is refuted by a
-`…_counterexample` and a `…_partial` theorem carries the guard (see `known_findings.json`, F-C07-1 … F-C07-7 and F5).
+`…_counterexample` and a `…_partial` theorem carries the guard (see `known_findings.json`: F-C07-1, -3, -5, -6, -7 and F5; F-C07-2 and F-C07-4 were repaired in /repo and their
+theorems are now proved in full).
 -/
 namespace MakoModel.C07
 open MakoModel.Namespace MakoModel.Path
@@ -343,9 +344,9 @@ example : ∃ (S : TSet) (s : St) (c : Ctx) (t : Template), s.ctxs[0]? = some c 
 theorem adjust_absolute (r : Str) (rel : Option Str) : adjustUri ('/' :: r) rel = some ('/' :: r) := by
   simp [adjustUri]
 
-/-- (2): a relative one is joined to the directory of the calling template's URI … -/
-theorem adjust_relative (c : Char) (r caller : Str) (h : c ≠ '/') :
-    adjustUri (c :: r) (some caller) = some (joinPath (dirname caller) (c :: r)) := by
+/-- (2): a relative one (the empty string included) is joined to the directory of the calling template's URI … -/
+theorem adjust_relative (u caller : Str) (h : u.head? ≠ some '/') :
+    adjustUri u (some caller) = some (joinPath (dirname caller) u) := by
   simp [adjustUri, h]
 
 /-- … which is `dirname caller ++ uri` when that directory is empty or ends with a slash, else `dirname caller / uri` -/
@@ -354,18 +355,15 @@ theorem join_relative (d : Str) (c : Char) (r : Str) (h : c ≠ '/') :
   simp [joinPath, h]
 
 /-- (3): without a calling template it is made absolute -/
-theorem adjust_no_caller (c : Char) (r : Str) (h : c ≠ '/') : adjustUri (c :: r) none = some ('/' :: c :: r) := by
+theorem adjust_no_caller (u : Str) (h : u.head? ≠ some '/') : adjustUri u none = some ('/' :: u) := by
   simp [adjustUri, h]
 
-/-- `adjust_uri` fails (IndexError) exactly on the empty string -/
-theorem adjust_none_iff (u : Str) (rel : Option Str) : adjustUri u rel = none ↔ u = [] := by
-  cases u with
-  | nil => simp [adjustUri]
-  | cons c r =>
-    simp only [adjustUri, reduceCtorEq, iff_false]
-    split
-    · simp
-    · cases rel <;> simp
+/-- `adjust_uri` is total (since the repair of F-C07-4 also on the empty string) -/
+theorem adjust_total (u : Str) (rel : Option Str) : ∃ v, adjustUri u rel = some v := by
+  unfold adjustUri
+  split
+  · exact ⟨_, rfl⟩
+  · cases rel <;> exact ⟨_, rfl⟩
 
 /-- a chain of includes: `rs` are the raw URIs written in the successive templates -/
 def resolveChain : Str → List Str → Option Str
@@ -406,12 +404,11 @@ theorem uri_relative_to_caller (S : TSet) (fuel : Nat) (entry : Str) (data : Lis
 /-- API calls resolve against the `_templateuri` of the namespace they are called on -/
 theorem api_relative_to_receiver (S : TSet) (fuel id : Nat) (uri : Str) (s : St) (o : NsObj) (c : Ctx)
     (hcache : s.cache.find? (·.1 = CacheKey.api id uri) = none) (ho : s.nss[id]? = some o)
-    (hc : s.ctxs[o.ctx]? = some c) (hun : ∀ u, adjustUri uri o.turi = some u → ∀ t, setLookup S u ≠ .found t)
-    (hne : uri ≠ []) :
+    (hc : s.ctxs[o.ctx]? = some c) (hun : ∀ u, adjustUri uri o.turi = some u → ∀ t, setLookup S u ≠ .found t) :
     ∃ u s', adjustUri uri o.turi = some u ∧ getNsApi S fuel id uri s = .err .lookup s' ∧
       s'.log = ⟨.api, o.turi, uri, u, false⟩ :: s.log := by
   cases hadj : adjustUri uri o.turi with
-  | none => exact absurd ((adjust_none_iff uri _).1 hadj) hne
+  | none => obtain ⟨v, hv⟩ := adjust_total uri o.turi; rw [hv] at hadj; cases hadj
   | some u =>
     refine ⟨u, { s with ctxs := s.ctxs ++ [c], log := ⟨.api, o.turi, uri, u, false⟩ :: s.log }, rfl, ?_, rfl⟩
     simp only [getNsApi, bind_apply, cacheGet, hcache, Option.map_none, getNs, ho, getCtx, hc, newCtx, lookupTemplate,
@@ -423,44 +420,47 @@ theorem api_relative_to_receiver (S : TSet) (fuel id : Nat) (uri : Str) (s : St)
 
 /-! ## an unresolvable URI raises `TemplateLookupException` -/
 
-/-- `unresolvable_raises_lookup_exception_partial`: `_lookup_template` of a **non-empty** URI that the set cannot serve
-raises `TemplateLookupException` (the `TopLevelLookupException` of `get_template` is wrapped), leaving output untouched. -/
-theorem unresolvable_raises_lookup_exception_partial (S : TSet) (kind : EvKind) (raw : Str) (rel : Option Str) (s : St)
-    (guard : raw ≠ []) (hun : ∀ u, adjustUri raw rel = some u → ∀ t, setLookup S u ≠ .found t) :
+/-- `unresolvable_raises_lookup_exception`: `_lookup_template` of **any** URI (the empty one included, F-C07-4 repaired)
+that the set cannot serve raises `TemplateLookupException` (the `TopLevelLookupException` of `get_template` is wrapped),
+leaving the output untouched. -/
+theorem unresolvable_raises_lookup_exception (S : TSet) (kind : EvKind) (raw : Str) (rel : Option Str) (s : St)
+    (hun : ∀ u, adjustUri raw rel = some u → ∀ t, setLookup S u ≠ .found t) :
     ∃ s', lookupTemplate S kind raw rel s = (.err .lookup s' : Res (Str × Template)) ∧ s'.out = s.out := by
-  cases hadj : adjustUri raw rel with
-  | none => exact absurd ((adjust_none_iff raw rel).1 hadj) guard
-  | some u =>
-    simp only [lookupTemplate, hadj]
-    cases hl : setLookup S u with
-    | found t => exact absurd hl (hun u hadj t)
-    | notFound => exact ⟨_, rfl, rfl⟩
-    | invalid => exact ⟨_, rfl, rfl⟩
+  obtain ⟨u, hadj⟩ := adjust_total raw rel
+  simp only [lookupTemplate, hadj]
+  cases hl : setLookup S u with
+  | found t => exact absurd hl (hun u hadj t)
+  | notFound => exact ⟨_, rfl, rfl⟩
+  | invalid => exact ⟨_, rfl, rfl⟩
 
-/-- `unresolvable_raises_lookup_exception_counterexample` (F-C07-4): the empty URI is unresolvable, but what is raised is the
-`IndexError` of `uri[0]` in `adjust_uri`, for every set, caller and state. -/
-theorem unresolvable_raises_lookup_exception_counterexample (S : TSet) (kind : EvKind) (rel : Option Str) (s : St) :
-    lookupTemplate S kind [] rel s = (.err .index s : Res (Str × Template)) := rfl
+/-- in particular the empty URI written in `/sub/a.html`: it is looked up as `/sub/` and not found -/
+theorem empty_uri_raises_lookup_exception (S : TSet) (kind : EvKind) (s : St)
+    (h : ∀ t, setLookup S "/sub/".toList ≠ .found t) :
+    ∃ s', lookupTemplate S kind [] (some "/sub/a.html".toList) s = (.err .lookup s' : Res (Str × Template)) :=
+  have hadj : adjustUri [] (some "/sub/a.html".toList) = some "/sub/".toList := by decide +kernel
+  let ⟨s', h1, _⟩ := unresolvable_raises_lookup_exception S kind [] (some "/sub/a.html".toList) s
+    (fun u hu t => by rw [hadj] at hu; cases hu; exact h t)
+  ⟨s', h1⟩
 
 /-- the same seen from an `<%include>` tag in running code -/
 theorem include_unresolvable_raises (S : TSet) (fuel : Nat) (env : Env) (uri : Str) (args : List (Str × Str)) (s : St)
-    (guard : uri ≠ []) (hun : ∀ u, adjustUri uri (some env.tu) = some u → ∀ t, setLookup S u ≠ .found t) :
+    (hun : ∀ u, adjustUri uri (some env.tu) = some u → ∀ t, setLookup S u ≠ .found t) :
     ∃ s', execItem S (fuel + 2) env (.incl uri args) s = .err .lookup s' ∧ s'.out = s.out := by
-  obtain ⟨s', h1, h2⟩ := unresolvable_raises_lookup_exception_partial S .incl uri (some env.tu) s guard hun
+  obtain ⟨s', h1, h2⟩ := unresolvable_raises_lookup_exception S .incl uri (some env.tu) s hun
   exact ⟨s', by simp [execItem, includeFile, h1], h2⟩
 
 /-- … and from a `<%namespace file=…>` tag when the module's namespaces are generated -/
 theorem namespace_unresolvable_raises (S : TSet) (fuel : Nat) (tu : Str) (cid : Nat) (tag : NsTag) (rest : List NsTag)
-    (f : Str) (s : St) (c : Ctx) (hsrc : tag.src = .file f) (hc : s.ctxs[cid]? = some c) (guard : f ≠ [])
+    (f : Str) (s : St) (c : Ctx) (hsrc : tag.src = .file f) (hc : s.ctxs[cid]? = some c)
     (hun : ∀ u, adjustUri f (some tu) = some u → ∀ t, setLookup S u ≠ .found t) :
     ∃ s', genNs S (fuel + 1) tu cid (tag :: rest) s = .err .lookup s' ∧ s'.out = s.out := by
-  obtain ⟨s', h1, h2⟩ := unresolvable_raises_lookup_exception_partial S .nstag f (some tu)
-    { s with ctxs := s.ctxs ++ [c.clean] } guard hun
+  obtain ⟨s', h1, h2⟩ := unresolvable_raises_lookup_exception S .nstag f (some tu)
+    { s with ctxs := s.ctxs ++ [c.clean] } hun
   exact ⟨s', by simp [genNs, getCtx, hc, newCtx, hsrc, h1], h2⟩
 
-example : ∃ (S : TSet) (raw : Str) (rel : Option Str), raw ≠ [] ∧
+example : ∃ (S : TSet) (raw : Str) (rel : Option Str),
     ∀ u, adjustUri raw rel = some u → ∀ t, setLookup S u ≠ .found t :=
-  ⟨⟨[], [], [], []⟩, "x.html".toList, some "/a/b.html".toList, by decide, fun u _ t h => by simp [setLookup, alookup, dirLookup] at h⟩
+  ⟨⟨[], [], [], []⟩, [], some "/a/b.html".toList, fun u _ t h => by simp [setLookup, alookup, dirLookup] at h⟩
 
 /-! ## which URIs are resolvable: normalisation -/
 
@@ -501,15 +501,14 @@ example : ∃ (S : TSet) (u u' : Str), S.coll = [] ∧ u ≠ u' ∧ (∀ d ∈ S
   ⟨⟨[], ["/r".toList], [("/r/x.html".toList, ⟨[], none, [], [], []⟩)], []⟩, "/sub/../x.html".toList, "/x.html".toList,
    rfl, by decide, by decide +kernel, by decide +kernel, ⟨[], none, [], [], []⟩, by decide +kernel⟩
 
-/-! ## defs written inside `<%namespace>` and `import=` (F-C07-2) -/
+/-! ## defs written inside `<%namespace>` and `import=` (F-C07-2, repaired) -/
 
-/-- `inline_def_runs_partial`: a def written inside `<%namespace>` runs its items with the names of its sibling defs and
-of the module's namespaces – **guard: no `import=` on its own or an earlier `<%namespace>` tag, or no other free name** -/
-theorem inline_def_runs_partial (S : TSet) (fuel : Nat) (tu nsn dn : Str) (cid : Nat) (t : Template) (tag : NsTag)
+/-- `inline_def_runs`: a def written inside `<%namespace>` runs its items with the names of its sibling defs and of the
+module's namespaces, every other free name being read from the context – whether or not some `<%namespace>` tag of the
+template has `import=` (no guard any more: `has_ns_imports` is recorded after these defs are generated). -/
+theorem inline_def_runs (S : TSet) (fuel : Nat) (tu nsn dn : Str) (cid : Nat) (t : Template) (tag : NsTag)
     (items : List Item) (ht : setLookup S tu = .found t) (htag : t.findNs nsn = some tag)
-    (hitems : alookup dn tag.inline = some items)
-    (guard : ¬ (((t.nss.take (nsIndex t nsn + 1)).any (·.imports.isSome)) = true ∧
-      ¬ ((freeNames t items).filter fun x => x ∉ tag.inline.map (·.1) ∧ x ∉ t.nsNames).isEmpty = true)) :
+    (hitems : alookup dn tag.inline = some items) :
     execCode S (fuel + 1) ⟨tu, .inline nsn dn⟩ cid [] =
       (do
         let nsvars ← fetchNsVars S fuel tu t cid
@@ -517,34 +516,26 @@ theorem inline_def_runs_partial (S : TSet) (fuel : Nat) (tu nsn dn : Str) (cid :
         execItems S fuel ⟨tu, t, cid, [], none, nsvars, false, tag.inline.map (·.1), some nsn⟩ items) := by
   funext s
   simp only [execCode, ht, htag, hitems]
-  rw [if_neg guard]
+
+/-- inside such a def a free name is a context lookup (`imp = none`) -/
+theorem inline_def_name_is_context_lookup (env : Env) (c : Ctx) (x : Str) (h0 : env.isBody = false)
+    (h2 : x ∉ env.localDefs) (h3 : x ∉ env.t.nsNames) (himp : env.imp = none) :
+    resolveName env c x = ctxGet c x := by
+  simp [resolveName, h0, h2, h3, himp]
 
 def s (x : String) : Str := x.toList
 
-
-example : ∃ (S : TSet) (tu nsn dn : Str) (t : Template) (tag : NsTag) (items : List Item),
-    setLookup S tu = .found t ∧ t.findNs nsn = some tag ∧ alookup dn tag.inline = some items ∧ items ≠ [] ∧
-    ¬ (((t.nss.take (nsIndex t nsn + 1)).any (·.imports.isSome)) = true ∧
-      ¬ ((freeNames t items).filter fun x => x ∉ tag.inline.map (·.1) ∧ x ∉ t.nsNames).isEmpty = true) :=
-  ⟨⟨[(s "/a", ⟨[], none, [⟨s "n", .plain, false, none, [(s "g", [.name (s "x") false])]⟩], [], []⟩)], [], [], []⟩,
-   s "/a", s "n", s "g", ⟨[], none, [⟨s "n", .plain, false, none, [(s "g", [.name (s "x") false])]⟩], [], []⟩,
-   ⟨s "n", .plain, false, none, [(s "g", [.name (s "x") false])]⟩, [.name (s "x") false],
-   by decide +kernel, by decide +kernel, by decide +kernel, by decide, by decide +kernel⟩
-
-/-- the witness of F-C07-2:
+/-- the former witness of F-C07-2:
 `<%namespace name="n" file="/b" import="*"><%def name="foo()">${x}</%def></%namespace>${n.foo()}` -/
 def importNsWitness : TSet :=
   ⟨[(s "/a", ⟨[], none, [⟨s "n", .file (s "/b"), false, some [['*']], [(s "foo", [.name (s "x") false])]⟩], [],
       [.nscall (.ns (s "n")) (s "foo")]⟩),
     (s "/b", ⟨[], none, [], [], []⟩)], [], [], []⟩
 
-/-- `inline_def_runs_counterexample` (F-C07-2): with `import=` on the tag the inline def cannot read any context name: the
-generated code refers to `_import_ns`, which only exists in top-level callables (`NameError`), although `x` is in the
-context. -/
-theorem inline_def_runs_counterexample :
-    (match render importNsWitness 20 (s "/a") [(s "x", .obj (s "X"))] St.empty with
-      | .err .name _ => true
-      | _ => false) = true := by
+/-- non-vacuity: it now renders the context value -/
+example : (match render importNsWitness 20 (s "/a") [(s "x", .obj (s "X"))] St.empty with
+    | .ok _ st => output st = s "X"
+    | .err _ _ => False) := by
   decide +kernel
 
 /-! ## `local` in the defs of a base template's `<%namespace>` (F-C07-3) -/
